@@ -110,6 +110,32 @@ CHECKS = {
          "retract; exactness clause scoped as stated in the evidence assumptions (runs with only no-loop firings; types untouched "
          "since reset unconstrained); only recorded executions are validated; TLC and the recorder are trusted.",
          "TLA+ ideal spec checked by TLC; trace validation of executions recorded from the real engine (state bound to the logged working-memory view)"),
+ "C09": ("model_checking",
+         "The reference semantics is a TLA+ module (May: least fixpoint of producible field values; Within(d): atoms derivable with "
+         "height <= d on definite consistent programs). TLC enumerates small programs with every query and simulates larger ones, each "
+         "run on a fresh BackwardEngine; and TLC interprets thousands of random larger programs recorded from the real engine, checking "
+         "provable => goal true in returned facts and in May, and DFS bounded completeness.",
+         "DESIGN.md §4 C09",
+         "Boolean `field.v == literal` atoms and goals; one-sided oracles (soundness against an over-approximation, completeness only "
+         "where derivations cannot interfere); bounded program sizes; TLC and the harness projection are trusted.",
+         "TLA+ reference-semantics spec; TLC-enumerated/simulated programs run on the real engine; TLC interpretation of recorded random programs (trace validation)"),
+ "C10": ("model_checking",
+         "Undo frames: TLC checks that first-write logs with merge-on-commit refine a stack of full snapshots; the dumped lock-step "
+         "graph (generated with the discard-on-commit deviation on, so that nested-commit histories are distinct states), short "
+         "histories, walks and simulated 10-op behaviours are replayed on a real Facts. Failed proofs: the C09 program runs, checking "
+         "`not provable => facts unchanged`.",
+         "DESIGN.md §4 C10",
+         "3 keys (scalars, object with nested field, absent), frame depth <=3, writers set/set_nested/remove; failed-proof half as C09; "
+         "TLC and the harness projection are trusted.",
+         "TLA+ lock-step ideal/as-built spec + state-graph replay on the real object; TLC-enumerated and recorded programs for the failed-proof half"),
+ "C11": ("model_checking",
+         "TLC dumps the complete graph of fact stores x (assert / change / remove / query) for three fixed programs; every transition, "
+         "all histories to depth 3-4 and walks to 7 steps are run on one persistent BackwardEngine with memoisation on, and every "
+         "verdict is compared with a freshly built engine on a copy of the same facts (the oracle the statement prescribes).",
+         "DESIGN.md §4 C11",
+         "3 boolean fields, 3 programs, 2 depths, DFS/BFS; differential oracle; the attached-RETE-engine variant is not exercised; "
+         "TLC and the harness projection are trusted.",
+         "TLA+ history spec, complete TLC state-graph replayed on the real engine with a differential (fresh engine) oracle"),
 }
 
 NOT_YET = "check not built yet in this round (see DESIGN.md §9 build order); no claim is made"
